@@ -189,10 +189,13 @@ def o_sign(case):
     forms = case.get("forms", 0)
     if forms:
         labels.append("iterable-forms")
+    crowd = case.get("crowd", 0)
+    if crowd:
+        labels.append("crowd>1024" if abs(crowd) > 1024 else "crowd")
     if mask is None:
-        S.pycoin_sign(B, tx, mech, supply, req_ht, None, scripts, _uncompressed(B), forms=forms)
+        S.pycoin_sign(B, tx, mech, supply, req_ht, None, scripts, _uncompressed(B), forms=forms, crowd=crowd)
     else:
-        S.pycoin_sign(B, tx, mech, supply, req_ht, requested, scripts, _uncompressed(B), forms=forms)
+        S.pycoin_sign(B, tx, mech, supply, req_ht, requested, scripts, _uncompressed(B), forms=forms, crowd=crowd)
     after = S.snapshot(tx)
 
     may_change = {i for i in requested if i not in pre}
@@ -280,6 +283,8 @@ def s_sign():
         "withhold": withhold,
         "no_script": no_script,
         "forms": weighted((1, st.just(0)), (1, st.integers(0, 127))),
+        # a wallet's worth of unrelated keys handed over with the needed ones (the needed ones first / last)
+        "crowd": weighted((40, st.just(0)), (2, st.sampled_from([40, -40, 300, -300])), (3, st.sampled_from([1100, 1100, -1100, 2100, 4200]))),
     })
 
 
